@@ -155,7 +155,7 @@ BMP_KWONLY = {"send_scp", "set_led"}
 
 
 def plan(tier):
-    n = 110 if tier == "quick" else 3000
+    n = 110 if tier == "quick" else 9000
     return [("mc", n * len(PLANS)), ("nesting", 3 * n), ("connections", 2 * n),
             ("bmp", 4 * n), ("inventory", 1)]
 
